@@ -2468,6 +2468,9 @@ func (f *fragment) RecalculateCache() {
 	// any more: re-sorting what is left would never bring them back, even
 	// when everything fits now. Rebuild from the rows in storage.
 	if f.CacheType != CacheTypeNone {
+		// The admission threshold of a ranked cache is only refreshed by a
+		// recalculation; a stale one would turn away rows that fit now.
+		f.cache.Recalculate()
 		for _, id := range f.unprotectedRows(0) {
 			f.cache.BulkAdd(id, f.storage.CountRange(id*ShardWidth, (id+1)*ShardWidth))
 		}
